@@ -38,7 +38,7 @@ POSSIBILITY OF SUCH DAMAGE.
 NTR:
 '''
 
-from ..basis import Params, SearchFacade, SearchResults
+from ..basis import Params, Range, SearchFacade, SearchResults
 from .enums import Table
 from .state import DBI
 from .util import dissect, prime_keys
@@ -61,7 +61,12 @@ class SearchImplementation(SearchFacade):
                     subvalues = subtable.values() if subtable else [-1]
                     constraints[_align(k)].update(subvalues)
         for pk in prime_keys(DBI().tables.prime):
-            if all(not c or e in c for c, e in zip(constraints, pk)):
+            if all(
+                not c
+                or e in c
+                or any(isinstance(r, Range) and e in r for r in c)
+                for c, e in zip(constraints, pk)
+            ):
                 results.add(pk[:keylen])
         return sorted(results)
 
